@@ -12,7 +12,7 @@ _PROVED = {
  "C07": "Proved (Props/C07.v, arbitrary filesystems): a Rollback with nothing tracked issues no call and changes nothing; whenever Rollback runs to its end nothing is tracked; BackupFS has no state besides baseInfos (struct fields from the AST). 'Backup filesystem as before' is decided by the oracle and, for covered histories, by the C01 theorems (backup empty after Rollback). ",
  "C09": "Proved (Props/C09.v, arbitrary filesystems): every error of Rollback is ErrRollbackFailed; restoreFile/restoreSymlink propagate failures. Props/C09_faults.v (over the laws + fault laws, single-fault plans): Rollback returns nil only if the base view is restored and the backup empty. Multi-fault plans and operations outside 'covered': fault enumeration. ",
  "C10": "Proved (Props/C10.v): the lock table regenerated from the Go AST satisfies the lock discipline (kernel-evaluated), each exported method either locks first with a deferred unlock or touches neither baseInfos nor a mutating method (C10_classification), and under that discipline every interleaving of any number of threads is a serial execution of the locked operations (C10_serialisable). Data races at the Go memory-model level: race detector only (partial). Writes through returned handles lie outside the lock by design (K7). ",
- "C11": "Proved (Props/C11.v): for every directory content, hidden set and sequence of Readdir/Readdirnames counts the listing returns exactly the visible entries, each once, no error (C11_listing, C11_visible_spec); renaming an ancestor of a hidden path is refused lexically. HiddenFS.RemoveAll: footprint theorem in Props/C04.v, effect by correspondence on real trees. ",
+ "C11": "Proved (Props/C11.v): for every directory content, hidden set and sequence of Readdir/Readdirnames counts the listing returns exactly the visible entries, each once, no error (C11_listing, C11_visible_spec); renaming an ancestor of a hidden path is refused lexically. HiddenFS.RemoveAll effect theorem (C11_removeall_effect, concrete OS model, any hidden set, symlinks in the subtree allowed): hidden entries untouched, lexical ancestor directories of hidden paths kept with mode/owner, everything else in the subtree gone, nothing outside changed; names reached through symlinks are outside (D9). ",
  "C12": "Proved (Props/C12.v): every FileInfo accessor survives toFInfo/JSON (C12_reload_info), Map() after a reload equals Map() before (C12_reload_spec), a restart at any point of a history changes nothing observable under names_ok (C12_restart_identity). JSON encoding itself is modelled, validated by the round-trip stream. ",
  "C14": "Proved (Props/C14.v): for absolute prefixes prefixPath is Join(prefix, Clean('/'+name)); every forwarded call has exactly the re-rooted arguments; File.Name/FileInfo.Name report the virtual name; Readlink trims the prefix from targets inside it and Symlink-then-Readlink returns the cleaned target. ",
  "C15": "Proved (Props/C15.v): every method on a lexically non-hidden comparable name is forwarded as exactly one call with unchanged arguments (Create/Open as OpenFile with their flags), siblings sharing a string prefix are not hidden, an empty hidden set is the identity. Effects on real trees: twin runs; listings of directories without hidden entries batch by batch. ",
